@@ -42,6 +42,13 @@ Known_C05_1(t, a, b) ==
 DirNeutral(t, g) == Rng(G(t, g).sc) \subseteq {"Zyyy", "Zinh"}
 Known_C05_2(t, a, b) == DirNeutral(t, a) /\ DirNeutral(t, b)
 
+\* Known finding F-C05-3 (consequence of F-C05-1 for a MIXED pair): the deciding entry -- an exception with a class side
+\* whose members mix R and L -- is dropped as a whole, and a less specific entry that also covers the pair still applies
+Covers(t, k, a, b) == a \in KeyGlyphs(t.groups, t.kerning[k].l, 1, Exported(t)) /\ b \in KeyGlyphs(t.groups, t.kerning[k].r, 2, Exported(t))
+Known_C05_3(t, a, b, adv) ==
+  /\ Known_C05_1(t, a, b)
+  /\ \E k \in 1..Len(t.kerning) : k # Deciding(t.kerning, t.groups, Exported(t), a, b) /\ Covers(t, k, a, b) /\ Quant(t.kerning[k].v, t.q) = adv
+
 AllLangs(t) == UNION {Languages(t.F, t.tags[k].tag) : k \in 1..Len(t.tags)}
 Triples(t) == {x \in (1..Len(t.tags)) \X AllLangs(t) \X Exported(t) \X Exported(t) :
                   LET k == x[1]  lang == x[2]  a == x[3]  b == x[4] IN
@@ -53,8 +60,10 @@ AdvBad(t)  == {x \in Triples(t) : ~Mixed(t, x[3], x[4]) /\ ~Known_C05_1(t, x[3],
                                   /\ PairValue(t.F, t.tags[x[1]].tag, x[2], x[3], x[4]).adv # Expected(t, x[3], x[4])}
 AdvKnown(t) == {x \in Triples(t) : ~Mixed(t, x[3], x[4]) /\ Known_C05_1(t, x[3], x[4])
                                   /\ PairValue(t.F, t.tags[x[1]].tag, x[2], x[3], x[4]).adv # Expected(t, x[3], x[4])}
-MixedBad(t) == {x \in Triples(t) : Mixed(t, x[3], x[4])
+MixedOff(t) == {x \in Triples(t) : Mixed(t, x[3], x[4])
                                   /\ PairValue(t.F, t.tags[x[1]].tag, x[2], x[3], x[4]).adv \notin {0, Expected(t, x[3], x[4])}}
+MixedKnown(t) == {x \in MixedOff(t) : Known_C05_3(t, x[3], x[4], PairValue(t.F, t.tags[x[1]].tag, x[2], x[3], x[4]).adv)}
+MixedBad(t) == MixedOff(t) \ MixedKnown(t)
 RtlWanted(t, x) == t.tags[x[1]].rtl /\ "L" \notin (Bidi(t, x[3]) \cup Bidi(t, x[4])) /\ ~Mixed(t, x[3], x[4])
 PlcBad(t)  == {x \in Triples(t) : RtlWanted(t, x) /\ ~Known_C05_2(t, x[3], x[4]) /\ ~Known_C05_1(t, x[3], x[4])
                                   /\ LET v == PairValue(t.F, t.tags[x[1]].tag, x[2], x[3], x[4]) IN v.plc # v.adv}
@@ -78,7 +87,7 @@ Next ==
          w == IF ab # {} THEN Witness(ab) ELSE IF mb # {} THEN Witness(mb) ELSE IF pb # {} THEN Witness(pb)
               ELSE IF lb # {} THEN Witness(lb) ELSE Witness(yb)
      IN PrintT(<<"VERDICT", t.tid, p, "none", Cardinality(Triples(t)), Cardinality(AdvKnown(t)), Cardinality(PlcKnown(t)),
-                 ToString(w)>>)
+                 ToString(w), Cardinality(MixedKnown(t))>>)
   /\ i' = i + 1
 Spec == Init /\ [][Next]_i
 =============================================================================
